@@ -25,6 +25,7 @@ THEOREMS = [
 	'Httoop.Uri.normalize_idem',
 	'Httoop.Uri.normalize_lower',
 	'Httoop.Uri.normalize_port_explicit',
+	'Httoop.Uri.normalize_port_component',
 	'Httoop.Uri.normalize_port_witness',
 	'Httoop.Uri.eq_refl',
 	'Httoop.Uri.eq_symm',
@@ -39,7 +40,7 @@ TRUSTED = [
 	'Spec/Rfc3986.lean is a transcription of RFC 3986 5.2.4 by hand; it is compared with an independent Python transcription on every enumerated path',
 ]
 ASSUMPTIONS = ['URI._port is falsy or a positive int and every registered PORT is positive (schemes_ports_positive re-checks the registry)']
-RULE = ('all absolute paths of <= 6 (thorough: 7) segments over {"", ".", "..", "a", "b", "...", ".a", "a."} + random longer paths; URIs with scheme/host case and port variants, as text and put together from components by attribute assignments in random order (port before / after the scheme, scheme in any letter case, assigned twice); '
+RULE = ('all absolute paths of <= 6 (thorough: 7) segments over {"", ".", "..", "a", "b", "...", ".a", "a."} + random longer paths; URIs with scheme/host case and port variants, as text and put together from components by attribute assignments in random order (port before / after the scheme, scheme in any letter case, assigned twice), each also compared with itself and with URI(its normalised tuple); '
 	'equality over random triples incl. textual forms; non-trivial = the normalised path differs from the input path; distinct by normalised output')
 
 SEGS = [u'', u'.', u'..', u'a', u'b', u'...', u'.a', u'a.']
@@ -280,6 +281,22 @@ def oracle(case):
 					bad.append('port %r, assigned %s' % (u.port, stored[-1]))
 			elif not u.port:
 				bad.append('default port not explicit: port is %r' % (u.port,))
+			if u.tuple[4] != u.port:
+				bad.append('the port component of the tuple is %r, the port is %r' % (u.tuple[4], u.port))
+		# equality with such an object on the left: reflexive, and in agreement with the normalised components
+		try:
+			fresh = built(case[1])
+			if not (fresh == fresh):
+				bad.append('not equal to itself')
+			n = built(case[1])
+			n.normalize()
+			v = URI(n.tuple)
+			if (fresh == v) != (v == fresh):
+				bad.append('== is not symmetric between the assembled URI and URI(its normalised tuple): %r / %r' % (fresh == v, v == fresh))
+			if last.get(u'scheme') and not (fresh == v):
+				bad.append('differs from URI(its own normalised tuple) %r' % (n.tuple,))
+		except Exception as e:
+			bad.append('comparison raised %s' % exc_name(e))
 		if bad:
 			return {'what': '; '.join(bad), 'assignments': list(case[1]), 'finding': None}
 		return None
